@@ -250,6 +250,8 @@ pub struct World {
     pub domain: Vec<String>,
     /// objects for which a create was ever accepted on some replica
     pub level: u32,
+    /// names are a function of the object (no two objects ever ask for the same name)
+    pub unique_names: bool,
     pub created: BTreeSet<Obj>,
     /// per replica: uuids this replica has held as recycled/tombstone since it was last refreshed
     pub dead: Vec<BTreeSet<Uuid>>,
@@ -351,6 +353,7 @@ pub struct WorldCfg {
     pub replicas: usize,
     /// domain level the servers are initialised at
     pub level: u32,
+    pub unique_names: bool,
     /// replica 0 file backed (pool 4) with this arc size
     pub file_backed: Option<Option<usize>>,
 }
@@ -379,6 +382,7 @@ impl World {
             prev: Vec::new(),
             domain: vec!["example.com".to_string(); cfg.replicas],
             level: cfg.level,
+            unique_names: cfg.unique_names,
             created: BTreeSet::new(),
             dead: vec![BTreeSet::new(); cfg.replicas],
             resurrected: Vec::new(),
@@ -420,6 +424,14 @@ impl World {
 
     pub fn n(&self) -> usize {
         self.reps.len()
+    }
+
+    pub fn name_of(&self, obj: Obj, idx: u8) -> String {
+        if self.unique_names {
+            format!("{}{}", obj.tag(), ["a", "b"][idx as usize % 2])
+        } else {
+            NAMES[idx as usize % NAMES.len()].to_string()
+        }
     }
 
     /// the wall clock of replica r
@@ -583,21 +595,21 @@ impl World {
         let mut note = String::from("ok");
         match op {
             Op::Create { obj, name, bad_spn, .. } => {
-                let mut e = build_entry(*obj, NAMES[*name as usize]);
+                let mut e = build_entry(*obj, &self.name_of(*obj, *name));
                 if *bad_spn {
                     e.add_ava(Attribute::Spn, Value::new_spn_str("wrong", "not-the-domain.example"));
                 }
                 wr.internal_create(vec![e]).map_err(e2s)?;
             }
             Op::CreatePair { a, an, b, bn, .. } => {
-                let ea = build_entry(*a, NAMES[*an as usize]);
-                let eb = build_entry(*b, NAMES[*bn as usize]);
+                let ea = build_entry(*a, &self.name_of(*a, *an));
+                let eb = build_entry(*b, &self.name_of(*b, *bn));
                 wr.internal_create(vec![ea, eb]).map_err(e2s)?;
             }
             Op::Rename { obj, name, .. } => {
                 let ml = ModifyList::new_list(vec![
                     Modify::Purged(Attribute::Name),
-                    Modify::Present(Attribute::Name, Value::new_iname(NAMES[*name as usize])),
+                    Modify::Present(Attribute::Name, Value::new_iname(&self.name_of(*obj, *name))),
                 ]);
                 wr.internal_modify_uuid(obj.uuid(), &ml).map_err(e2s)?;
             }
